@@ -93,7 +93,8 @@ assumed("A-sympy", "Symbol(n) equality is by name; free_symbols is the set of sy
 assumed("A-cpython", "int()/float()/complex() on the token languages denote the literal's value (ValueError otherwise); str.format/str/repr per CPython; "
                      "dicts iterate in insertion order; copy.deepcopy returns an equal structure sharing no mutable cell; os.path.join/dirname POSIX semantics; "
                      "str(x), format(x, '') and '{}'.format(x) are one text (for NumPy scalars: with NumPy's default print options -- the bounded "
-                     "family serialize_repr checks the serialiser under other options)")
+                     "family serialize_repr checks the serialiser under other options); xs.sort(..) leaves sorted(xs, ..) in xs; sys.exc_info() is total and "
+                     "returns a 3-tuple whose components may each be None (a traceback has tb_lineno)")
 assumed("A-class-hierarchy", "no object is an instance of two of str / list / tuple / dict / set / np.ndarray / RegRefTransform / sym.Expr, nor of one of them and a "
                             "number class; int, float, complex, np.integer, np.floating, np.complexfloating are pairwise disjoint except np.floating/float and "
                             "np.complexfloating/complex (NumPy scalars subclass the Python types); Symbol < Expr, np number classes < np.generic, bool < int")
